@@ -5,7 +5,8 @@ Property theorems only (helper lemmas and the specification predicates `AffineWi
 `NoForConflict`, `Outside`, … live in `Proofs/Match.lean`).  The statements are about
 `Model/Match.lean`, whose decision cores are *regenerated from /repo's current source* on every run:
 `Gen.geomEqualDecision` (`geometry_equal`), `Gen.mgAlign`, `Gen.mgCropPad` (`match_geometry`),
-`Gen.refBoundsAxis`, `Gen.v2vBoundsAxis` (the two bounds checks). -/
+`Gen.refBoundsAxis`, `Gen.v2vBoundsAxis` (the two bounds checks), `Gen.mgHead` (the refusals at the head
+of `match_geometry`). -/
 namespace HdVerif.C09
 open HdVerif HdVerif.Gen HdVerif.Match
 
@@ -67,14 +68,12 @@ theorem match_refuses_conflict {α : Type} (src : Vol α) (tgt : Geom) (tol : Ra
     (h : (∃ u v, src.geom.frameOfRef = some u ∧ tgt.frameOfRef = some v ∧ u ≠ v) ∨ src.geom.cs ≠ tgt.cs) :
     matchGeometry src tgt tol c = .error .runtime := by
   unfold matchGeometry
-  rcases h with ⟨u, v, hu, hv, huv⟩ | hcs
-  · have : forConflict src.geom tgt = true := by simp [forConflict, hu, hv, huv]
-    rw [if_pos this]
-  · by_cases hf : forConflict src.geom tgt = true
-    · rw [if_pos hf]
-    · rw [if_neg hf]
-      have : (src.geom.cs != tgt.cs) = true := by simpa using hcs
-      rw [if_pos this]
+  rcases mgHead_spec src.geom tgt with ⟨hf, hc, _⟩ | ⟨_, hhead⟩
+  · exfalso
+    rcases h with ⟨u, v, hu, hv, huv⟩ | hcs
+    · simp [forConflict, hu, hv, huv] at hf
+    · exact hcs hc
+  · rw [hhead]
 
 /-- **Only reachable geometries are ever returned**: the geometry of whatever `match_geometry`
 returns is obtained from the source's by `permute_spatial_axes` / `pad` / slice-indexing steps — so
